@@ -262,11 +262,30 @@ def ob_effects():
              [(ast.And, DT.BOOL), (ast.Or, DT.BOOL), (ast.Eq, DT.BOOL), (ast.Ne, DT.BOOL), (ast.Speculation, DT.BOOL), (ast.Speculation, DT.BYTE)]
     for cls, t in binary:
         lits = {DT.INT: [ast.IntValue(5, SPAN), ast.IntValue(0, SPAN)], DT.BYTE: [ast.ByteValue(5, SPAN), ast.ByteValue(0, SPAN)], DT.BOOL: [ast.BoolValue(True, SPAN), ast.BoolValue(False, SPAN)]}[t]
-        choices = [('lit', l) for l in lits] + [('call', None)]
+        choices = [('lit', l) for l in lits] + [('call', None), ('var', None)]
         for (lk, lv), (rk, rv) in itertools.product(choices, repeat=2):
             n += 1
-            left = lv if lk == 'lit' else operand('call', t)
-            right = rv if rk == 'lit' else operand('call', t)
+            mkop = lambda k_, v_, nm: v_ if k_ == 'lit' else (operand('call', t) if k_ == 'call' else ast.VariableLookup(ast.Variable(nm, t, False), SPAN))
+            left = mkop(lk, lv, 'vl'); right = mkop(rk, rv, 'vr')
+            if 'var' in (lk, rk):
+                # a run-time variable as operand: nothing to drop, but a division / modulo whose divisor is not a constant must survive folding
+                # as a division (it is what raises division_by_zero at run time), whatever the other operand is
+                try:
+                    env_v = env_with()
+                    from hidc.lexer import Cursor as _C
+                    for nm_ in ('vl', 'vr'):
+                        env_v.vars[nm_] = ast.Declaration(ast.Variable(nm_, t, False), operand('call', t), _C(0, 0))
+                    res = cls(SPAN, left, right).evaluate(env_v)
+                except TCE:
+                    continue
+                if cls in (ast.Div, ast.Mod) and rk != 'lit' and not any(isinstance(x, cls) for x in walk(res)):
+                    bad.append({'expression': f'{"literal " + str(lv.data) if lk == "lit" else lk} {cls.__name__} {rk}', 'folded_to': repr(res)[:120],
+                                'problem': 'the division is folded away although the divisor is only known at run time (division_by_zero can no longer be raised)'})
+                for k_, node in (('left', left), ('right', right)):
+                    if (lk if k_ == 'left' else rk) == 'var' and cls not in (ast.And, ast.Or) and not any(x is node or (isinstance(x, ast.VariableLookup) and x.var.name == node.var.name) for x in walk(res)):
+                        if not (cls is ast.Speculation and k_ == 'right'):
+                            bad.append({'expression': f'{lk} {cls.__name__} {rk}', 'folded_to': repr(res)[:120], 'dropped_operand': k_})
+                continue
             if cls in (ast.Div, ast.Mod) and rk == 'lit' and rv.data == 0 and lk == 'lit':
                 continue          # literal division by zero is rejected at compile time (C05/C14 fault clause, separate obligation)
             try:
@@ -402,7 +421,7 @@ def walk(tree):
 
 
 def tasks(tier):
-    out = [task(MOD, 'ob_effects', ('C14', 'C01'), label='py/fold/effects', cost=1)]
+    out = [task(MOD, 'ob_effects', ('C14', 'C01', 'C05'), label='py/fold/effects', cost=1)]
     for w in ((2,) if tier == 'quick' else (2, 3, 4)):
         out.append(task(MOD, 'ob_cast_chains', ('C14', 'C09'), label=f'py/fold/cast-chains/w{w}', w=w, cost=1))
     widths = (2,) if tier == 'quick' else (2, 3, 4)
